@@ -47,28 +47,39 @@ Definition optN_eqb (a : option N) (b : N) := match a with Some x => x =? b | No
 Definition optZ_eqb (a : option Z) (b : Z) := match a with Some x => Z.eqb x b | None => false end.
 Definition optS_eqb (a : option string) (b : string) := match a with Some x => String.eqb x b | None => false end.
 
+(* Every finite obligation below has the shape
+     filter (fun x => negb (P x)) L = []
+   with P and L named constants, so that (a) a failing obligation evaluates to
+   the offending entries and (b) the lifting lemma filter_nil_forall applies to
+   it syntactically (no conversion problem for the kernel to solve). *)
+
 (* C20 (a): every record type converts to a name and back, text marshalling included *)
-Definition msgtype_ok (t : N) : bool :=
-  optN_eqb (get_type (type_name t)) t && optN_eqb (unmarshal_type (marshal_type t)) t.
-Definition bad_msgtypes : list N := filter (fun t => negb (msgtype_ok t)) (upto 65536).
+Definition all_types : list N := upto 65536.
+Definition msgtype_fwd_okb (t : N) : bool := optN_eqb (get_type (type_name t)) t.
+Definition msgtype_text_okb (t : N) : bool := optN_eqb (unmarshal_type (marshal_type t)) t.
+Definition bad_msgtypes_fwd : list N := filter (fun t => negb (msgtype_fwd_okb t)) all_types.
+Definition bad_msgtypes_text : list N := filter (fun t => negb (msgtype_text_okb t)) all_types.
 
 (* C20 (b): errno tables *)
 Definition errno_name (n : Z) : option string := lookupZ n errno_to_name.
 Definition errno_num (s : str) : option Z := lookupS s errno_to_num.
-Definition bad_errno_names : list (Z * string) :=
-  filter (fun e => negb (optZ_eqb (errno_num (s2l (snd e))) (fst e))) errno_to_name.
-Definition bad_errno_nums : list (string * Z) :=
-  filter (fun e => negb (match errno_name (snd e) with
-                         | Some s' => optZ_eqb (errno_num (s2l s')) (snd e)
-                         | None => false end)) errno_to_num.
+Definition errno_name_okb (e : Z * string) : bool := optZ_eqb (errno_num (s2l (snd e))) (fst e).
+Definition errno_num_okb (e : string * Z) : bool :=
+  match errno_name (snd e) with
+  | Some s' => optZ_eqb (errno_num (s2l s')) (snd e)
+  | None => false end.
+Definition bad_errno_names : list (Z * string) := filter (fun e => negb (errno_name_okb e)) errno_to_name.
+Definition bad_errno_nums : list (string * Z) := filter (fun e => negb (errno_num_okb e)) errno_to_num.
 
 (* C20 (c): architectures *)
 Definition arch_name (c : N) : option string := lookupN c arch_names.
 Definition arch_code (s : str) : option N := lookupS s reverse_arch.
 Definition str_eqbS (a b : string) := String.eqb a b.
 Definition arch_names_nodup : bool := nodupb str_eqbS (map snd arch_names) && nodupb N.eqb (map fst arch_names).
-Definition bad_arch_fwd : list (N * string) := filter (fun e => negb (optN_eqb (arch_code (s2l (snd e))) (fst e))) arch_names.
-Definition bad_arch_rev : list (string * N) := filter (fun e => negb (optS_eqb (arch_name (snd e)) (fst e))) reverse_arch.
+Definition arch_fwd_okb (e : N * string) : bool := optN_eqb (arch_code (s2l (snd e))) (fst e).
+Definition arch_rev_okb (e : string * N) : bool := optS_eqb (arch_name (snd e)) (fst e).
+Definition bad_arch_fwd : list (N * string) := filter (fun e => negb (arch_fwd_okb e)) arch_names.
+Definition bad_arch_rev : list (string * N) := filter (fun e => negb (arch_rev_okb e)) reverse_arch.
 
 (* C20 (d): per-architecture syscall tables and the rule package's reverse tables *)
 Definition syscall_table (a : str) : option (list (Z * string)) := lookupS a syscalls.
@@ -80,36 +91,45 @@ Definition syscall_num (a : str) (s : str) : option Z :=
 Definition dup_names (t : list (Z * string)) : list string :=
   let fix go (l : list string) := match l with [] => [] | x :: r => if existsb (str_eqbS x) r then x :: go r else go r end in
   go (map snd t).
-Definition bad_syscall_dups : list (string * list string) :=
-  filter (fun e => negb (match snd e with [] => true | _ => false end)) (map (fun e => (fst e, dup_names (snd e))) syscalls).
-Definition bad_syscall_fwd : list (string * (Z * string)) :=
-  flat_map (fun e => map (fun x => (fst e, x))
-     (filter (fun x => negb (optZ_eqb (syscall_num (s2l (fst e)) (s2l (snd x))) (fst x))) (snd e))) syscalls.
-Definition bad_syscall_rev : list (string * (string * Z)) :=
-  flat_map (fun e => map (fun x => (fst e, x))
-     (filter (fun x => negb (optS_eqb (syscall_name (s2l (fst e)) (snd x)) (fst x))) (snd e))) reverse_syscalls.
+Definition syscall_nodup_okb (e : string * list (Z * string)) : bool := nodupb str_eqbS (map snd (snd e)).
+Definition bad_syscall_dups : list (string * list (Z * string)) := filter (fun e => negb (syscall_nodup_okb e)) syscalls.
+(* flattened (arch, entry) lists so that the obligations are plain filters *)
+Definition syscalls_flat : list (string * (Z * string)) := flat_map (fun e => map (fun x => (fst e, x)) (snd e)) syscalls.
+Definition rsyscalls_flat : list (string * (string * Z)) := flat_map (fun e => map (fun x => (fst e, x)) (snd e)) reverse_syscalls.
+Definition syscall_fwd_okb (e : string * (Z * string)) : bool :=
+  optZ_eqb (syscall_num (s2l (fst e)) (s2l (snd (snd e)))) (fst (snd e)).
+Definition syscall_rev_okb (e : string * (string * Z)) : bool :=
+  optS_eqb (syscall_name (s2l (fst e)) (snd (snd e))) (fst (snd e)).
+Definition bad_syscall_fwd := filter (fun e => negb (syscall_fwd_okb e)) syscalls_flat.
+Definition bad_syscall_rev := filter (fun e => negb (syscall_rev_okb e)) rsyscalls_flat.
 Definition syscall_arches_agree : bool :=
   forallb (fun e => match rsyscall_table (s2l (fst e)) with Some _ => true | None => false end) syscalls &&
   forallb (fun e => match syscall_table (s2l (fst e)) with Some _ => true | None => false end) reverse_syscalls.
 
 (* C20 (e): rule tables *)
-Definition bad_ops_fwd := filter (fun e : string * N => negb (optS_eqb (lookupN (snd e) reverse_operators_table) (fst e))) operators_table.
-Definition bad_ops_rev := filter (fun e : N * string => negb (optN_eqb (lookupS (s2l (snd e)) operators_table) (fst e))) reverse_operators_table.
-Definition bad_fields_fwd := filter (fun e : string * N => negb (optS_eqb (lookupN (snd e) reverse_fields_table) (fst e))) fields_table.
-Definition bad_fields_rev := filter (fun e : N * string => negb (optN_eqb (lookupS (s2l (snd e)) fields_table) (fst e))) reverse_fields_table.
 Definition comparison (l r : N) : option N :=
   match lookupN l comparisons_table with Some t => lookupN r t | None => None end.
-Definition bad_comparisons_sym : list (N * N * N) :=
-  flat_map (fun e => flat_map (fun x => if optN_eqb (comparison (fst x) (fst e)) (snd x) then [] else [(fst e, fst x, snd x)]) (snd e)) comparisons_table.
-Definition bad_comparisons_rev_missing : list (N * N * N) :=
-  flat_map (fun e => flat_map (fun x => match lookupN (snd x) reverse_comparisons_table with Some _ => [] | None => [(fst e, fst x, snd x)] end) (snd e)) comparisons_table.
-Definition bad_comparisons_rev : list (N * (N * N)) :=
-  filter (fun e => negb (optN_eqb (comparison (fst (snd e)) (snd (snd e))) (fst e) && optN_eqb (comparison (snd (snd e)) (fst (snd e))) (fst e)))
-         reverse_comparisons_table.
+Definition ops_fwd_okb (e : string * N) : bool := optS_eqb (lookupN (snd e) reverse_operators_table) (fst e).
+Definition ops_rev_okb (e : N * string) : bool := optN_eqb (lookupS (s2l (snd e)) operators_table) (fst e).
+Definition fields_fwd_okb (e : string * N) : bool := optS_eqb (lookupN (snd e) reverse_fields_table) (fst e).
+Definition fields_rev_okb (e : N * string) : bool := optN_eqb (lookupS (s2l (snd e)) fields_table) (fst e).
+Definition bad_ops_fwd := filter (fun e => negb (ops_fwd_okb e)) operators_table.
+Definition bad_ops_rev := filter (fun e => negb (ops_rev_okb e)) reverse_operators_table.
+Definition bad_fields_fwd := filter (fun e => negb (fields_fwd_okb e)) fields_table.
+Definition bad_fields_rev := filter (fun e => negb (fields_rev_okb e)) reverse_fields_table.
+Definition comparisons_flat : list (N * N * N) := flat_map (fun e => map (fun x => (fst e, fst x, snd x)) (snd e)) comparisons_table.
+Definition comparison_sym_okb (e : N * N * N) : bool := let '(l, r, c) := e in optN_eqb (comparison r l) c.
+Definition comparison_has_rev_okb (e : N * N * N) : bool :=
+  let '(l, r, c) := e in match lookupN c reverse_comparisons_table with Some _ => true | None => false end.
+Definition comparison_rev_okb (e : N * (N * N)) : bool :=
+  optN_eqb (comparison (fst (snd e)) (snd (snd e))) (fst e) && optN_eqb (comparison (snd (snd e)) (fst (snd e))) (fst e).
+Definition bad_comparisons_sym := filter (fun e => negb (comparison_sym_okb e)) comparisons_flat.
+Definition bad_comparisons_rev_missing := filter (fun e => negb (comparison_has_rev_okb e)) comparisons_flat.
+Definition bad_comparisons_rev := filter (fun e => negb (comparison_rev_okb e)) reverse_comparisons_table.
 (* both operands of every comparison are nameable *)
-Definition bad_comparison_fields : list N :=
-  filter (fun f => negb (match lookupN f reverse_fields_table with Some _ => true | None => false end))
-         (flat_map (fun e => fst e :: map fst (snd e)) comparisons_table).
+Definition comparison_operands : list N := flat_map (fun e => fst e :: map fst (snd e)) comparisons_table.
+Definition field_nameable_okb (f : N) : bool := match lookupN f reverse_fields_table with Some _ => true | None => false end.
+Definition bad_comparison_fields := filter (fun f => negb (field_nameable_okb f)) comparison_operands.
 
 (* C20 (f): names used by the normalisation table are producible *)
 Definition record_type_producible (rt : string) : bool :=
@@ -119,16 +139,17 @@ Definition record_type_producible (rt : string) : bool :=
      | None => false end.
 Definition syscall_producible (sc : string) : bool :=
   str_eqbS sc "*" || existsb (fun e : string * list (Z * string) => existsb (fun x : Z * string => str_eqbS (snd x) sc) (snd e)) syscalls.
-Definition bad_norm_record_types : list string := filter (fun rt => negb (record_type_producible rt)) (map fst norm_record_types).
+Definition norm_record_type_names : list string := map fst norm_record_types.
+Definition bad_norm_record_types : list string := filter (fun rt => negb (record_type_producible rt)) norm_record_type_names.
 Definition bad_norm_syscalls : list string := filter (fun sc => negb (syscall_producible sc)) norm_syscalls.
 (* deterministic selection: no syscall or record type is registered twice, and
    for one record type at most the last normalisation lacks has_fields *)
 Definition norm_syscalls_nodup : bool := nodupb str_eqbS norm_syscalls.
-Definition norm_record_types_nodup : bool := nodupb str_eqbS (map fst norm_record_types).
+Definition norm_record_types_nodup : bool := nodupb str_eqbS norm_record_type_names.
 Fixpoint all_but_last_nonempty (l : list (list string)) : bool :=
   match l with [] => true | [_] => true | x :: r => negb (match x with [] => true | _ => false end) && all_but_last_nonempty r end.
-Definition bad_norm_has_fields : list string :=
-  map fst (filter (fun e : string * list (list string) => negb (all_but_last_nonempty (snd e))) norm_record_types).
+Definition norm_has_fields_okb (e : string * list (list string)) : bool := all_but_last_nonempty (snd e).
+Definition bad_norm_has_fields := filter (fun e => negb (norm_has_fields_okb e)) norm_record_types.
 
 (* C20 (g): GetAuditEventType is a total function of the record type, the same on both passes *)
 Fixpoint runs_cover (lo : N) (l : list (N * N * N * string)) : option N :=
